@@ -36,45 +36,63 @@ Fixpoint ty_eqv (a b : ty) {struct a} : bool :=
   | _, _ => false
   end.
 
-(* the dispatch cache: the container types whose handler exists, as first seen (fully resolved) *)
-Definition cache := list ty.
+(* cattrs' two caches, as the container types whose handler exists (fully resolved, as first seen):
+   [cL] = MultiStrategyDispatch.dispatch's lru_cache (every cached dispatch; CLEARED whenever a hook is
+          registered, which includes the creation of a dict handler);
+   [cD] = _direct_dispatch, where gen_structure_mapping registers each dict handler it builds. *)
+Record cstate := { cL : list ty; cD : list ty }.
+Definition empty_state := {| cL := []; cD := [] |}.
+Definition addL (r : ty) (s : cstate) : cstate := {| cL := r :: cL s; cD := cD s |}.
 
-Fixpoint lookup_eqv (t : ty) (c : cache) : option ty :=
+Fixpoint lookup_eqv (t : ty) (c : list ty) : option ty :=
   match c with
   | [] => None
   | x :: r => if ty_eqv t x then Some x else lookup_eqv t r
   end.
 
-(* dispatch of type t under cache c: the type whose order is effectively used, and the new cache *)
-Fixpoint resolve (c : cache) (t : ty) {struct t} : cache * ty :=
+(* [disp cached s t]: dispatch(t) (cached = true) / dispatch_without_caching(t) (cached = false):
+   the type whose member order the returned handler uses, and the new caches.
+   list_structure_factory gets its element handler with a CACHED dispatch and captures the element
+   type; mapping_structure_factory gets its value handler WITHOUT caching, registers the new dict
+   handler in _direct_dispatch and thereby clears the lru cache. *)
+Fixpoint disp (cached : bool) (s : cstate) (t : ty) {struct t} : cstate * ty :=
   match t with
   | TList e =>
-      match lookup_eqv t c with
-      | Some t0 => (c, t0)
-      | None => let (c1, e') := resolve c e in (TList e' :: c1, TList e')
+      match (if cached then lookup_eqv t (cL s) else None) with
+      | Some t0 => (s, t0)
+      | None =>
+          let (s1, e') := disp true s e in
+          ((if cached then addL (TList e') s1 else s1), TList e')
       end
   | TMap e =>
-      match lookup_eqv t c with
-      | Some t0 => (c, t0)
-      | None => let (c1, e') := resolve c e in (TMap e' :: c1, TMap e')
+      match (if cached then lookup_eqv t (cL s) else None) with
+      | Some t0 => (s, t0)
+      | None =>
+          match lookup_eqv t (cD s) with
+          | Some t0 => ((if cached then addL t0 s else s), t0)
+          | None =>
+              let (s1, e') := disp false s e in
+              let s2 := {| cL := []; cD := TMap e' :: cD s1 |} in
+              ((if cached then addL (TMap e') s2 else s2), TMap e')
+          end
       end
-  | _ => (c, t)
+  | _ => (s, t)
   end.
 
-(* one structure_from_dict(payload, type) call *)
-Definition step (c : cache) (rq : ty * json) : cache * res value :=
-  let (c', t') := resolve c (fst rq) in (c', structure t' (snd rq)).
+(* one structure_from_dict(payload, type) call: converter.structure = dispatch(type)(payload, type) *)
+Definition step (s : cstate) (rq : ty * json) : cstate * res value :=
+  let (s', t') := disp true s (fst rq) in (s', structure t' (snd rq)).
 
 (* a process: successive calls through the one global converter *)
-Fixpoint run (c : cache) (rqs : list (ty * json)) : list (res value) :=
+Fixpoint run (s : cstate) (rqs : list (ty * json)) : list (res value) :=
   match rqs with
   | [] => []
-  | rq :: r => let (c', o) := step c rq in o :: run c' r
+  | rq :: r => let (s', o) := step s rq in o :: run s' r
   end.
 
 (* the property: what a call returns does not depend on what was decoded before *)
 Definition history_free (rqs : list (ty * json)) : Prop :=
-  run [] rqs = map (fun rq => structure (fst rq) (snd rq)) rqs.
+  run empty_state rqs = map (fun rq => structure (fst rq) (snd rq)) rqs.
 
 (* ---- guard: no two container types with the same key but different member order in one process ---- *)
 Fixpoint csub (t : ty) : list ty :=
